@@ -276,6 +276,8 @@ namespace hs
             op_reserve(op);
         else if (k == "tdf")
             op_foreign(op);
+        else if (k == "tdfx")
+            op_foreign_adjacent(op);
         else if (k == "cor")
             op_corrupt(op);
         else if (k == "corsweep")
@@ -1624,5 +1626,58 @@ namespace hs
             }
         stats().hit("reach.fence_table_cases", cases);
         stats().hit("reach.fence_table_complete." + S->o->name + "." + std::to_string(size));
+    }
+} // namespace hs
+
+namespace hs
+{
+    //=== C08: memory of some other allocator that touches one of X's blocks ===//
+    void Interp::op_foreign_adjacent(const Op& op)
+    {
+        // tdfx obj block side size array: a neighbour allocation that starts exactly one past the end of one of
+        // X's upstream blocks (side 0) or ends exactly at its begin (side 1), e.g. a node of a low-level allocator
+        // or of a static_allocator that happens to be placed there
+        auto X = live_obj(op.arg(0));
+        if (!X || !X->o->caps.comp || X->o->owner < OWNER_MALLOC)
+            return;
+        auto& heap   = SimHeap::get();
+        auto  blocks = heap.blocks_of(X->o->owner);
+        if (blocks.empty())
+            return;
+        auto        b    = blocks[std::size_t(op.arg(1)) % blocks.size()];
+        std::size_t size = 1 + std::size_t(op.arg(3)) % 64;
+        Req         r    = sanitize(*X, COMP, op.arg(4) % 2 != 0, 1, op.arg(3), 0);
+        size             = r.array ? r.count * r.size : r.size;
+        bool        after = op.arg(2) % 2 == 0;
+        if (!after && b.first < size)
+            return;
+        std::size_t at = after ? b.first + b.second : b.first - size;
+        void*       p  = heap.harness_alloc_at(at, size);
+        if (!p)
+            return; // something else lives there
+        std::vector<std::size_t> before, now;
+        snapshot_caps(*X, before);
+        auto cap0 = X->o->reading(0);
+        std::memset(p, 0x3C, size);
+        heap.begin_op(0);
+        bool ok = X->o->deallocate(r, p);
+        heap.end_op();
+        after_sut_call("try_deallocate of a neighbouring allocator's memory");
+        hash_.add(0x79);
+        stats().hit(after ? "reach.foreign_adjacent_after_block" : "reach.foreign_adjacent_before_block");
+        if (ok)
+            violate("C08", "foreign_dealloc_accepted",
+                    "try_deallocate returned true for memory that %s one of the allocator's blocks and belongs "
+                    "to somebody else",
+                    after ? "starts exactly one past the end of" : "ends exactly at the begin of");
+        snapshot_caps(*X, now);
+        if (before != now || cap0 != X->o->reading(0))
+            violate("C08", "foreign_dealloc_changed_state", "try_deallocate returned false but the allocator's "
+                                                            "capacity readings changed");
+        for (std::size_t i = 0; i < size; ++i)
+            if (static_cast<unsigned char*>(p)[i] != 0x3C)
+                violate("C08", "foreign_dealloc_changed_state", "try_deallocate returned false but wrote into "
+                                                                "the neighbour's memory");
+        heap.harness_free(p);
     }
 } // namespace hs
